@@ -1448,6 +1448,39 @@ def inject(r, kind_wanted, idx_wanted, text_fn):
     return hook, done
 
 
+def st_escape_runs(shapes, label="escape-runs"):
+    """one uninterrupted run of %XX escapes whose DECODED length sits around the usual chunk sizes (8 ... 256 bytes,
+    one below / at / one above), ending — or beginning — with a truncated multi-byte sequence, a lone continuation byte,
+    or nothing wrong at all; in every component.  (A decoder that works chunk-wise must carry an incomplete sequence
+    over the chunk border and still refuse it at the end of the run.)"""
+    out = []
+    tails = [("ok", b""), ("lead2", b"\xc3"), ("lead3", b"\xe4"), ("lead3b", b"\xe4\xb8"), ("lead4", b"\xf0\x9f\x98"), ("cont", b"\x80")]
+    pct = lambda bs: "".join("%%%02X" % b for b in bs)
+    slots = ["pkg:t/%s", "pkg:t/%s/n", "pkg:t/n@%s", "pkg:t/n?k=%s", "pkg:t/n#%s", "pkg:t/a/%s/b/n", "pkg:t/n#a/%s"]
+    for D in (7, 8, 9, 15, 16, 17, 31, 32, 33, 63, 64, 65, 127, 128, 129, 191, 192, 193, 255, 256, 257):
+        for tname, tail in tails:
+            for fill_kind in ("cjk", "ascii"):
+                body = D - len(tail)
+                if fill_kind == "cjk":
+                    k = body // 3
+                    filler = "\u4e2d".encode("utf-8") * k + b"a" * (body - 3 * k)
+                else:
+                    filler = b"a" * body
+                for where in ("end", "start"):
+                    if where == "start" and tname in ("ok",):
+                        continue
+                    run = pct(filler + tail) if where == "end" else pct(tail + filler)
+                    for j, slot in enumerate(slots):
+                        if fill_kind == "ascii" and j not in (0, 3):
+                            continue
+                        sh = shapes[(D + j) % len(shapes)]
+                        s_ = slot % run
+                        if sh == "P":
+                            s_ = s_.replace("pkg:t/", "pkg:npm/", 1)
+                        out.append(case("parse %s %s" % (sh, hx(s_)), label, s=s_, shape=sh))
+    return out
+
+
 def st_dup_keys(shapes):
     """one key twice (same or another letter case) with two non-empty values, for ordinary and well-known keys, next to
     each other and with another key in between: refused"""
@@ -1462,6 +1495,21 @@ def st_dup_keys(shapes):
                     for sh in shapes:
                         s2_ = s_ if sh != "P" else s_.replace("pkg:generic/", "pkg:npm/")
                         out.append(case("parse %s %s" % (sh, hx(s2_)), "dup-parse", s=s2_, shape=sh))
+    # the same among MANY qualifiers (bulk paths taken from some count on): a repeat — same spelling or another letter
+    # case — of the first / a middle / the last key, placed at the start, in the middle, at the end, the other keys
+    # ascending, descending or interleaved
+    for N in (3, 7, 8, 9, 10, 15, 16, 17, 31, 32, 33, 64):
+        keys = ["k%02d" % i for i in range(N)]
+        orders = {"asc": keys, "desc": keys[::-1], "mix": keys[::2] + keys[1::2][::-1]}
+        for oname, ks in orders.items():
+            for j in (0, N // 2, N - 1):
+                for variant in (keys[j], keys[j].upper()):
+                    for pos in (0, len(ks) // 2, len(ks)):
+                        items = ["%s=%d" % (k, i + 1) for i, k in enumerate(ks)]
+                        items.insert(pos, "%s=dup" % variant)
+                        sh = shapes[(N + j + pos) % len(shapes)]
+                        s_ = "pkg:%s/name?%s" % ("npm" if sh == "P" else "generic", "&".join(items))
+                        out.append(case("parse %s %s" % (sh, hx(s_)), "dup-parse", s=s_, shape=sh))
     return out
 
 
